@@ -642,6 +642,8 @@ search_page_desc(kdump_ctx_t *ctx, kdump_pfn_t pfn,
 			block = NULL;
 		}
 		if (block) {
+			unsigned short oldn = block->n;
+
 			idx = pfn_idx3(curpfn) - block->idx3;
 			if (!idx--)
 				return error_dup(ctx, off, block, curpfn);
@@ -649,8 +651,12 @@ search_page_desc(kdump_ctx_t *ctx, kdump_pfn_t pfn,
 				block->n = idx + 1;
 			if (block->n >= block->alloc) {
 				res = realloc_pfn_offs(block, PFN_IDX3_SIZE);
-				if (res != KDUMP_OK)
+				if (res != KDUMP_OK) {
+					/* The block must not claim pages
+					 * beyond its offset array. */
+					block->n = oldn;
 					return error_pfn_offs(ctx, res);
+				}
 			}
 		}
 
